@@ -20,20 +20,23 @@ import (
 
 // Fault kinds (what the armed call does).
 const (
-	FaultErr          = 1 // the call fails; for Commit: nothing was committed
-	FaultCommitDoubt  = 2 // Commit applies its writes but reports an error (outcome in doubt)
+	FaultErr         = 1 // the call fails; for Commit: nothing was committed
+	FaultCommitDoubt = 2 // Commit applies its writes but reports an error (outcome in doubt)
+	FaultCancel      = 3 // the request's context runs out while the call is in flight: the call fails with the context's error, and so does every later call made with that context
 )
 
 type Call struct {
-	Idx    int    `json:"idx"`
-	Tx     int    `json:"tx"`
-	Conn   int    `json:"conn"`
-	Op     string `json:"op"`
-	Fault  int    `json:"fault,omitempty"`
-	Err    string `json:"err,omitempty"`
+	Idx   int    `json:"idx"`
+	Tx    int    `json:"tx"`
+	Conn  int    `json:"conn"`
+	Op    string `json:"op"`
+	Fault int    `json:"fault,omitempty"`
+	Err   string `json:"err,omitempty"`
 }
 
 type Server struct {
+	// OnCancel is called when a FaultCancel fires: the harness cancels the context of the operation in flight.
+	OnCancel  func()
 	Committed map[string][]byte
 	Log       []Call
 	calls     int
@@ -76,12 +79,27 @@ func (s *Server) call(conn, tx int, op string) (int, *Call) {
 	if f != 0 {
 		c.Fault = f
 		s.Fired[op]++
+		if f == FaultCancel && s.OnCancel != nil {
+			s.OnCancel()
+		}
 	}
 	s.Log = append(s.Log, c)
 	return f, &s.Log[len(s.Log)-1]
 }
 
 var ErrInjected = errors.New("pgfake: injected failure")
+
+// injErr is the error of an injected fault.
+func injErr(f int) error {
+	if f == FaultCancel {
+		return context.Canceled
+	}
+	return ErrInjected
+}
+
+// done reports that the context of a call has run out before the call (an earlier call of the same
+// operation was cancelled): the driver does not reach the server with it.
+func done(ctx context.Context) bool { return ctx != nil && ctx.Err() != nil }
 
 // Conn implements postgres.PgInterface.
 type Conn struct {
@@ -106,7 +124,11 @@ func (c *Conn) BeginTx(ctx context.Context, opts pgx.TxOptions) (pgx.Tx, error) 
 	}
 	if f != 0 {
 		rec.Err = "injected"
-		return nil, ErrInjected
+		return nil, injErr(f)
+	}
+	if done(ctx) {
+		rec.Err = "context done"
+		return nil, ctx.Err()
 	}
 	c.s.txSeq++
 	t := &Tx{s: c.s, c: c, id: c.s.txSeq, writes: map[string][]byte{}}
@@ -180,9 +202,16 @@ func (t *Tx) Commit(ctx context.Context) error {
 	t.endedBy = "commit"
 	t.s.Ended[t.id] = "commit"
 	delete(t.s.open, t.id)
-	if f == FaultErr {
+	if f == FaultErr || f == FaultCancel {
 		rec.Err = "injected (not committed)"
-		return ErrInjected
+		return injErr(f)
+	}
+	if done(ctx) {
+		// pgx: the commit does not reach the server, the connection is given up and the server rolls back
+		rec.Err = "context done (not committed)"
+		t.endedBy = "rollback"
+		t.s.Ended[t.id] = "rollback"
+		return ctx.Err()
 	}
 	if t.poisoned {
 		rec.Err = "commit of aborted tx: rolled back"
@@ -215,7 +244,12 @@ func (t *Tx) Rollback(ctx context.Context) error {
 	delete(t.s.open, t.id)
 	if f != 0 {
 		rec.Err = "injected"
-		return ErrInjected
+		return injErr(f)
+	}
+	if done(ctx) {
+		// pgx: the rollback cannot be sent, the connection is closed instead - which ends the transaction on the server all the same
+		rec.Err = "context done (connection given up, rolled back)"
+		return ctx.Err()
 	}
 	return nil
 }
@@ -224,7 +258,7 @@ func (t *Tx) CopyFrom(ctx context.Context, tableName pgx.Identifier, columnNames
 	return 0, errors.New("pgfake: CopyFrom not supported")
 }
 func (t *Tx) SendBatch(ctx context.Context, b *pgx.Batch) pgx.BatchResults { return nil }
-func (t *Tx) LargeObjects() pgx.LargeObjects                                { return pgx.LargeObjects{} }
+func (t *Tx) LargeObjects() pgx.LargeObjects                               { return pgx.LargeObjects{} }
 func (t *Tx) Prepare(ctx context.Context, name, sql string) (*pgconn.StatementDescription, error) {
 	return nil, errors.New("pgfake: Prepare not supported")
 }
@@ -259,7 +293,7 @@ func (t *Tx) pre(op string) (*Call, int, error) {
 	if f != 0 {
 		t.poisoned = true
 		rec.Err = "injected"
-		return rec, f, ErrInjected
+		return rec, f, injErr(f)
 	}
 	return rec, f, nil
 }
@@ -268,6 +302,11 @@ func (t *Tx) Exec(ctx context.Context, sql string, args ...any) (pgconn.CommandT
 	rec, _, err := t.pre("Exec")
 	if err != nil {
 		return pgconn.CommandTag{}, err
+	}
+	if done(ctx) {
+		rec.Err = "context done"
+		t.poisoned = true
+		return pgconn.CommandTag{}, ctx.Err()
 	}
 	q := strings.TrimSpace(sql)
 	switch {
@@ -311,6 +350,11 @@ func (t *Tx) Query(ctx context.Context, sql string, args ...any) (pgx.Rows, erro
 	rec, _, err := t.pre("Query")
 	if err != nil {
 		return nil, err
+	}
+	if done(ctx) {
+		rec.Err = "context done"
+		t.poisoned = true
+		return nil, ctx.Err()
 	}
 	q := strings.TrimSpace(sql)
 	if len(args) < 1 {
@@ -364,13 +408,13 @@ type Rows struct {
 	err    error
 }
 
-func (r *Rows) Close() { r.closed = true }
-func (r *Rows) Err() error { return r.err }
-func (r *Rows) CommandTag() pgconn.CommandTag { return pgconn.NewCommandTag("SELECT") }
+func (r *Rows) Close()                                       { r.closed = true }
+func (r *Rows) Err() error                                   { return r.err }
+func (r *Rows) CommandTag() pgconn.CommandTag                { return pgconn.NewCommandTag("SELECT") }
 func (r *Rows) FieldDescriptions() []pgconn.FieldDescription { return nil }
-func (r *Rows) Values() ([]any, error) { return nil, errors.New("pgfake: Values not supported") }
-func (r *Rows) RawValues() [][]byte { return nil }
-func (r *Rows) Conn() *pgx.Conn { return nil }
+func (r *Rows) Values() ([]any, error)                       { return nil, errors.New("pgfake: Values not supported") }
+func (r *Rows) RawValues() [][]byte                          { return nil }
+func (r *Rows) Conn() *pgx.Conn                              { return nil }
 
 func (r *Rows) Next() bool {
 	f, rec := r.t.s.call(r.t.c.id, r.t.id, "Next")
@@ -380,7 +424,7 @@ func (r *Rows) Next() bool {
 	if f != 0 {
 		// row fetch fails: the result set ends with an error and the transaction is aborted
 		rec.Err = "injected"
-		r.err = ErrInjected
+		r.err = injErr(f)
 		r.closed = true
 		r.t.poisoned = true
 		return false
@@ -402,8 +446,8 @@ func (r *Rows) Scan(dest ...any) error {
 	if f != 0 {
 		rec.Err = "injected"
 		r.closed = true // pgx closes the rows on a scan error
-		r.err = ErrInjected
-		return ErrInjected
+		r.err = injErr(f)
+		return injErr(f)
 	}
 	row := r.data[r.pos-1]
 	if len(dest) != len(row) {
